@@ -10,8 +10,8 @@ CHECKS = {
  "C02": ("model_checking", "TLC model checking (identifier discipline) + TLC trace validation with probes of every identifier ever issued",
          "MCWorld Inv_C02 exhaustively (new ids unused, stale ids never resolve, across reuse by allocate and allocate_batch with batch <,=,> free list); on real Worlds contains/entry/Entries::entry are probed for every id ever issued in the lineage plus forged ids after every event.",
          "Bounded; generations far below wrap-around.", "6 C02"),
- "C04": ("exploration", "TLC trace validation of a per-value drop ledger + TLC model checking of the row move of Entry::add / Entry::remove (spec/Reshape.tla)",
-         "Every construction, clone, deserialization and drop of every individually identified component value and resource is logged; after every event TLC requires the live-value set of the ledger to equal the values reachable in the observed worlds (no leak, no premature or double drop, no aliasing) and emptiness after all worlds are dropped. spec/Reshape.tla checks, for every instance over 3 components, that the row move through the packed buffer drops exactly the removed value (the pinned design, which never dropped it, is kept as a self-test that must violate ExactlyOnce). Leaks of a FAILED deserialization attempt are reported as INFO only (no world ever owned those values).",
+ "C04": ("exploration", "TLC trace validation of a per-value drop ledger + TLC model checking of the row move of Entry::add / Entry::remove (spec/Reshape.tla) and of the shape-preserving table operations (spec/Ledger.tla)",
+         "Every construction, clone, deserialization and drop of every individually identified component value and resource is logged; after every event TLC requires the live-value set of the ledger to equal the values reachable in the observed worlds (no leak, no premature or double drop, no aliasing) and emptiness after all worlds are dropped. spec/Reshape.tla checks, for every instance over 3 components, that the row move through the packed buffer drops exactly the removed value (the pinned design, which never dropped it, is kept as a self-test that must violate ExactlyOnce). spec/Ledger.tla checks push, the per-column swap_remove under the shared table length, clear, clone / clone_from and drop on 2 tables x 2 columns x <=3 rows with individually identified values (ExactlyOnce, NoLeak, NoDangling, NoAlias; two wrong designs are kept as self-tests that must be rejected). Leaks of a FAILED deserialization attempt are reported as INFO only (no world ever owned those values).",
          "Zero-sized and 1-byte components are ledgered by count, not identity.", "6 C04"),
  "C05": ("other", "TLC trace validation of the allocator-call protocol recorded around every library call + self-checking payloads + crash capture",
          "A global-allocator wrapper records every alloc/dealloc/realloc issued inside library calls (and later calls on those blocks) with what its book knows about the block; TLC requires: no release/resize of a dead or unknown block (double free, stray pointer), release/resize layout equal to the allocation layout (the 'Vec rebuilt with wrong capacity/type' failure), no library block left after all worlds are dropped. Freed blocks are poisoned and quarantined and every component read verifies a type tag + checksum, so type confusion and reads through stale columns are observed; a crash inside a safe call sequence is recorded and reported. Registry mixes zero-sized, 1-byte, small, align(64) and heap-owning components; drivers exercise reserve, shrink_to_fit, batch adoption and every view combination.",
